@@ -822,6 +822,12 @@ fn run_once(p: &Plan, create_order: u64, st: &mut RunStats, answers: &mut Vec<St
                     Ok(write_tiny(&from_quill(&m)?, None))
                 }));
                 let tier = if damaged { "T2" } else if create_order != 0 { "T1" } else { "T0" };
+                if std::env::var_os("VERIF_DEBUG").is_some() {
+                    eprintln!("--- query {name}: expected now {exp_now:#?}\n--- real {real:#?}");
+                    for (n, b) in &disk {
+                        eprintln!("--- file {n}:\n{}", String::from_utf8_lossy(b));
+                    }
+                }
                 if count {
                     st.tier(if damaged { "T2" } else if create_order != 0 { "T1" } else { "T0" });
                     if damaged {
@@ -843,7 +849,9 @@ fn run_once(p: &Plan, create_order: u64, st: &mut RunStats, answers: &mut Vec<St
                             if count {
                                 st.probe("stale_ok_under_damage");
                             }
-                        } else if exp_now.iter().all(|e| matches!(e, Exp::ErrParse(_))) && !exp_now.is_empty() {
+                        } else if exp_now.iter().any(|e| matches!(e, Exp::ErrParse(_))) {
+                            // some shortest path runs over a text the reference reader rejects; the real reader may be more
+                            // tolerant there, and its reading cannot be judged
                             if count {
                                 st.probe("lenient_accept");
                             }
